@@ -17,10 +17,15 @@ RULE = ("history on ONE database instance: a random permutation of queries mixin
 def gen_query(rng, V, plain_facts, unit_facts):
     """Returns (text, tree) where tree leaves are ('num', F) | ('fact', phrase) | ('q', si, dims)."""
     nf = rng.randint(1, 4)
+    used = []
     def leaf():
         r = rng.random()
         if r < 0.55:
-            ph = rng.choice(plain_facts if rng.random() < 0.6 or not unit_facts else unit_facts)
+            if used and rng.random() < 0.3:
+                ph = rng.choice(used)              # the same phrase again in one query
+            else:
+                ph = rng.choice(plain_facts if rng.random() < 0.6 or not unit_facts else unit_facts)
+            used.append(ph)
             return ph, ("fact", ph)
         if r < 0.8:
             xs, x = mag(rng)
@@ -50,6 +55,16 @@ def gen_query(rng, V, plain_facts, unit_facts):
         k = rng.randint(1, 9)
         text, tree = "%s - %d * %s" % (a, k, b), ("bin", "-", ("fact", a), ("bin", "*", ("num", F(k)), ("fact", b)))
     return text, tree
+
+def phrase_leaves(tree):
+    k = tree[0]
+    if k == "fact":
+        return [tree[1]]
+    if k in ("num", "q"):
+        return []
+    if k == "round":
+        return phrase_leaves(tree[1])
+    return phrase_leaves(tree[2]) + phrase_leaves(tree[3])
 
 def model(tree, consts, V):
     """consts: phrase -> list of (value, parts) in the order they were reported; consumed per occurrence."""
@@ -155,6 +170,14 @@ def shard(p):
                 acc.violate("c18:answer-changed:" + ("mode" if first[key][1] != flag else "history"),
                             "%r gave %s at position %d (describe=%s) but %s at position %d (describe=%s)" % (text, values, pos, flag, first[key][0], first[key][2], first[key][1]), case)
                 continue
+            # every fact phrase of the query that was evaluated is reported, as often as it occurs (the generator owns the tree)
+            if flag and tree is not None and len(values) == 1 and values[0][0] == "ok":
+                leaves = sorted(phrase_leaves(tree))
+                if sorted(x["phrase"] for x in descs) != leaves:
+                    acc.violate("c18:descriptions-differ-from-phrases-used", "%r uses the fact phrases %s but reports %s" % (text, leaves, [x["phrase"] for x in descs]), case)
+                    continue
+                if len(set(leaves)) < len(leaves):
+                    acc.count("queries_with_a_repeated_phrase")
             # substitution in the reference model
             if flag and tree is not None and len(values) == 1 and values[0][0] == "ok":
                 consts = {}
